@@ -406,6 +406,46 @@ pub trait Message<T: Send + 'static>: Actor {
     }
 }
 
+/// Owns the mailbox receiver for the lifetime of the actor task and disposes of it on every
+/// exit path (normal return, early return on failure, unwinding after a panic).
+///
+/// Dropping a `Receiver` closes the channel and drains it once. A sender that obtained its
+/// permit just before the close may still push its envelope afterwards. Every envelope holds
+/// an `ActorRef` - a sender of this very channel - so such a late envelope would keep the
+/// channel alive forever and its `ask` caller would never be answered. When the actor ends,
+/// the closed receiver is therefore handed to a small detached task that keeps discarding
+/// late envelopes until every outstanding permit has been returned.
+struct MailboxGuard<T: Actor>(Option<mpsc::Receiver<MailboxMessage<T>>>);
+
+impl<T: Actor> std::ops::Deref for MailboxGuard<T> {
+    type Target = mpsc::Receiver<MailboxMessage<T>>;
+    fn deref(&self) -> &Self::Target {
+        self.0.as_ref().expect("mailbox receiver is present until drop")
+    }
+}
+
+impl<T: Actor> std::ops::DerefMut for MailboxGuard<T> {
+    fn deref_mut(&mut self) -> &mut Self::Target {
+        self.0.as_mut().expect("mailbox receiver is present until drop")
+    }
+}
+
+impl<T: Actor> Drop for MailboxGuard<T> {
+    fn drop(&mut self) {
+        let Some(mut receiver) = self.0.take() else {
+            return;
+        };
+        receiver.close();
+        // Dispose of everything that is queued right now.
+        while receiver.try_recv().is_ok() {}
+        // `recv()` keeps yielding late envelopes and returns `None` once the channel is closed
+        // and every outstanding permit has been returned - immediately in the common case.
+        if let Ok(handle) = tokio::runtime::Handle::try_current() {
+            handle.spawn(async move { while receiver.recv().await.is_some() {} });
+        }
+    }
+}
+
 /// Executes the complete lifecycle of an actor within its spawned task.
 ///
 /// This function is the core runtime for an actor, handling the entire lifecycle from
@@ -455,9 +495,10 @@ pub trait Message<T: Send + 'static>: Actor {
 pub(crate) async fn run_actor_lifecycle<T: Actor>(
     args: T::Args,
     actor_ref: ActorRef<T>,
-    mut receiver: mpsc::Receiver<MailboxMessage<T>>,
+    receiver: mpsc::Receiver<MailboxMessage<T>>,
     mut terminate_receiver: mpsc::Receiver<ControlSignal>,
 ) -> ActorResult<T> {
+    let mut receiver = MailboxGuard(Some(receiver));
     let actor_id = actor_ref.identity();
 
     #[cfg(feature = "tracing")]
